@@ -447,6 +447,10 @@ pub(crate) mod strand_heap {
             self.has_finalize = value;
         }
     }
+
+    #[cfg(kani)]
+    #[path = "/verif/kani/aranya-runtime/strand_heap.rs"]
+    mod verif_kani;
 }
 
 #[cfg(test)]
@@ -572,3 +576,7 @@ mod braid_result_tests {
         assert!(iter.next().is_none());
     }
 }
+
+#[cfg(kani)]
+#[path = "/verif/kani/aranya-runtime/braiding.rs"]
+mod verif_kani;
